@@ -271,8 +271,11 @@ def gen_case(rng, dtypes):
         case["by_groups"] = True
         if case["index"] is not None:
             case["index"] = {"kind": "int", "vals": [int(x) for x in rng.permutation(n) + 10]}
-        if mask is not None and mask["kind"] == "bool_series":
+        if mask is not None and mask["kind"] == "bool_series" and not (case["vc"] == "pd" and case["index"] is not None):
             mask["kind"] = "bool"
+        if case.get("times") and case["vc"] == "pd" and case["index"] is not None and rng.random() < 0.6:
+            case["times"]["container"] = "pd"  # re-ordered by position, never looked up by label
+            case["series_inputs_by_groups"] = True
     if rng.random() < 0.5 and not case.get("times"):
         # another interleaving: stable merge of the per-group row lists in a different order
         rows_by = {}
